@@ -35,7 +35,7 @@ func runSelftest(args []string) int {
 		json.Unmarshal(b, &expected)
 	}
 	self, _ := os.Executable()
-	dirs, _ := filepath.Glob(filepath.Join(vd, "seeded", "*_[mnp][0-9]*"))
+	dirs, _ := filepath.Glob(filepath.Join(vd, "seeded", "*_[mnpq][0-9]*"))
 	sort.Strings(dirs)
 	bad := 0
 	for _, d := range dirs {
